@@ -12,14 +12,14 @@ use super::case::*;
 /// What a generator must stay away from (each flag names a known finding / documented exclusion).
 #[derive(Clone, Copy)]
 pub struct Avoid {
-    /// file: a property named like a fixed field of the record (F2: duplicate JSON member)
+    /// a property named like a fixed field of the file record (was F2, repaired: no longer avoided anywhere)
     pub fixed_field_names: bool,
     /// file: a map key that is a *labelled tag* (`Some(k)`, unit variant): sval_json 2.22 leaves the object
     /// unbalanced when the entry's value is tagged too (third-party defect, known finding)
     pub tagged_keys: bool,
     /// otlp: bytes / sequence / map / record / tuple in map-key position still reach `todo!()` (D7 remainder)
     pub nested_keys: bool,
-    /// otlp: `null` inside a sequence (dropped by protobuf, kept by JSON)
+    /// `null` inside a sequence (was dropped by protobuf / bare null in JSON; repaired, no longer avoided)
     pub null_in_seq: bool,
     /// otlp: NaN / ±inf (JSON writes `null`)
     pub nonfinite: bool,
@@ -32,7 +32,7 @@ pub struct Avoid {
 }
 
 pub const AVOID_FILE: Avoid = Avoid {
-    fixed_field_names: true,
+    fixed_field_names: false,
     tagged_keys: true,
     nested_keys: false,
     null_in_seq: false,
@@ -46,7 +46,7 @@ pub const AVOID_OTLP: Avoid = Avoid {
     fixed_field_names: false,
     tagged_keys: false,
     nested_keys: true,
-    null_in_seq: true,
+    null_in_seq: false,
     nonfinite: true,
     bytes: true,
     exception_keys: true,
